@@ -1,6 +1,7 @@
 import ComposeVerif.Ops.Common
 import ComposeVerif.Ops.C08
 import ComposeVerif.Ops.C12
+import ComposeVerif.Ops.C04
 import ComposeVerif.Model.Pipeline
 /-! line-protocol op `pipeline.load`: the composed loader pipeline (`Model/Pipeline.lean`) on a list of documents -/
 open Lean
@@ -42,6 +43,20 @@ def loadOp : Handler := fun args =>
     | .err e => Json.mkObj [("err", e)]
     | .panic s => Json.mkObj [("panic", s)]
 
-def handlers : List (String × Handler) := [("pipeline.load", loadOp)]
+def filesOf (j : Json) : List (List Reset.YNode) :=
+  match j with
+  | .arr fs => fs.toList.map fun f => match f with
+    | .arr ds => ds.toList.map CV.Ops.C04.nodeOfJson
+    | _ => []
+  | _ => []
+
+/-- `{"files":[[node…]…], …}` (nodes in C04's wire format, tags included) → `{"ok": T}` | `{"err": stage}` | `{"panic": site}` -/
+def loadYOp : Handler := fun args =>
+  match loadY (cfgOf args) (filesOf (getObj args "files")) with
+  | .ok kvs => Json.mkObj [("ok", Val.toJson (.map kvs))]
+  | .err e => Json.mkObj [("err", e)]
+  | .panic s => Json.mkObj [("panic", s)]
+
+def handlers : List (String × Handler) := [("pipeline.load", loadOp), ("pipeline.loadY", loadYOp)]
 
 end CV.Ops.Pipeline
